@@ -35,6 +35,9 @@ CHECKS = {
  "C12": (MC, "exhaustive enumeration of frames x action lists x port-config combinations through the real switch over the wire, emissions compared byte-for-byte with an independent byte-level rewriter",
          "All action lists of length <=3 (quick) / <=4 (thorough) over 17 actions incl. virtual ports, as flow entry and as packet-out, on a corpus of tagged/untagged TCP/UDP/ICMP/ARP/other frames (incl. padded, fragments, options); all port-config bit combinations (boundary pairs quick, full 64x64 thorough) set via real port-mod messages; port counters read back with port-stats requests and compared with what was actually emitted.",
          "Trusts mc/refs/refpkt.py (own offset arithmetic and RFC 1071) and mc/refs/ofwire.py; counters not asserted for OFPP_TABLE resubmission.", "DESIGN.md 4 C12"),
+ "C09": (MC, "exhaustive enumeration of handshake interleavings and loss points plus explicit-state BFS with state matching over open/deliver/close/send-error histories of 3 connections on 2 datapath ids, on real Connection/Nexus objects fed spec-encoded bytes by a scripted switch",
+         "(a) the handshake script with up to 2 (quick) / 3 (thorough) asynchronous messages inserted at every position, (b) connection loss after every prefix, (c) every registry/life-cycle state reachable within depth 9 / 12 of {open, deliver-next, close, send-error} on three connections; ConnectionUp/Down counts and order, deferred port-status order, registry contents and sendToDPID target are compared with a reference life-cycle after every step.",
+         "Reference life-cycle in mc/refs/c09_lifecycle.py; port-status before the features reply and ConnectionDown for never-announced connections are not constrained (DESIGN.md).", "DESIGN.md 4 C09"),
 }
 
 PENDING_REASON = "check under construction in this round (design in DESIGN.md section 4); not claimed until its harness is committed and silent on the unchanged tree"
